@@ -210,6 +210,116 @@ def defined_probe(names):
     return "".join("{{ 'D' if %s is defined else 'U' }}" % n for n in names)
 
 
+# ---- every kind of template markup, over a value that differs between instances -----------------
+# form -> (cell text from (reference X, constant C), value from (x, C), markup kind)
+MK_FORMS = {
+    "expr": (lambda X, C: "T{{%s}}." % X, lambda x, C: f"T{x}.", "expr"),
+    "expr-spaced": (lambda X, C: "T{{ %s }}." % X, lambda x, C: f"T{x}.", "expr"),
+    "filter-upper": (lambda X, C: "T{{%s|upper}}." % X, lambda x, C: f"T{x.upper()}.", "expr"),
+    "filter-length": (lambda X, C: "T{{%s|length}}." % X, lambda x, C: f"T{len(x)}.", "expr"),
+    "filter-default": (lambda X, C: "T{{%s|default('d')}}." % X, lambda x, C: f"T{x}.", "expr"),
+    "filter-replace": (lambda X, C: "T{{%s|replace('a', 'A')}}." % X, lambda x, C: "T" + x.replace("a", "A") + ".", "expr"),
+    "concat": (lambda X, C: "{{ 'T' ~ %s ~ '.' }}" % X, lambda x, C: f"T{x}.", "expr"),
+    "ternary": (lambda X, C: "{{ 'eq' if %s == '%s' else 'ne' }}." % (X, C), lambda x, C: ("eq" if x == C else "ne") + ".", "expr"),
+    "stmt-if": (lambda X, C: "{%% if %s == '%s' %%}yes-%s{%% else %%}no{%% endif %%}." % (X, C, C), lambda x, C: (f"yes-{C}" if x == C else "no") + ".", "stmt"),
+    "stmt-if-noelse": (lambda X, C: "S{%% if %s == '%s' %%}+{%% endif %%}." % (X, C), lambda x, C: "S" + ("+" if x == C else "") + ".", "stmt"),
+    "stmt-if-ws": (lambda X, C: "{%%- if %s == '%s' -%%} a {%%- else -%%} b {%%- endif -%%}." % (X, C), lambda x, C: ("a" if x == C else "b") + ".", "stmt"),
+    "stmt-if-ne": (lambda X, C: "{%% if %s != '%s' %%}other{%% else %%}same{%% endif %%}." % (X, C), lambda x, C: ("other" if x != C else "same") + ".", "stmt"),
+    "stmt-set": (lambda X, C: "{%% set z = %s %%}{%% if z == '%s' %%}eq{%% else %%}ne{%% endif %%}." % (X, C), lambda x, C: ("eq" if x == C else "ne") + ".", "stmt"),
+    "stmt-for": (lambda X, C: "F{%% for q in %s %%}*{%% endfor %%}." % X, lambda x, C: "F" + "*" * len(x) + ".", "stmt"),
+    "stmt-for-loopvar": (lambda X, C: "F{%% for q in %s %%}{%% if loop.first %%}<{%% endif %%}-{%% endfor %%}." % X,
+                         lambda x, C: "F" + ("<" if x else "") + "-" * len(x) + ".", "stmt"),
+    "stmt-in": (lambda X, C: "{%% if '%s' in %s %%}in{%% else %%}out{%% endif %%}." % (C[:1], X), lambda x, C: ("in" if C[:1] in x else "out") + ".", "stmt"),
+    "stmt-elif": (lambda X, C: "{%% if %s == '%s' %%}one{%% elif %s == 'yes' %%}two{%% else %%}three{%% endif %%}." % (X, C, X),
+                  lambda x, C: ("one" if x == C else "two" if x == "yes" else "three") + ".", "stmt"),
+    "mixed": (lambda X, C: "{%% if %s == '%s' %%}{{%s}}!{%% else %%}-{%% endif %%}." % (X, C, X), lambda x, C: (f"{x}!" if x == C else "-") + ".", "expr"),
+    "native": (lambda X, C: "{@ %s @}" % X, lambda x, C: x, "native"),
+    "native-cond": (lambda X, C: "{@ 'p.' if %s == '%s' else 'q.' @}" % (X, C), lambda x, C: "p." if x == C else "q.", "native"),
+    "native-filter": (lambda X, C: "{@ %s|upper @}" % X, lambda x, C: x.upper(), "native"),
+    "comment": (lambda X, C: "{# %s #}fixed." % X, lambda x, C: "fixed.", "static"),
+    "raw": (lambda X, C: "{%% raw %%}{{%s}}{%% endraw %%}." % X, lambda x, C: "{{%s}}." % "@X@", "static"),
+    "static": (lambda X, C: "fixed text.", lambda x, C: "fixed text.", "static"),
+}
+# truth-valued cells for include_if, list-valued cells for begin_for, per markup kind
+MK_TRUTH = {
+    "stmt": lambda X, C: "{%% if %s == '%s' %%}true{%% else %%}false{%% endif %%}" % (X, C),
+    "expr": lambda X, C: "{{ %s == '%s' }}" % (X, C),
+    "native": lambda X, C: "{@ %s == '%s' @}" % (X, C),
+}
+MK_LIST = {
+    "stmt": lambda X, C: "{%% if %s == '%s' %%}p;q{%% else %%}r;{%% endif %%}" % (X, C),
+    "expr": lambda X, C: "{{ 'p;q' if %s == '%s' else 'r;' }}" % (X, C),
+    "native": lambda X, C: "{@ ['p', 'q'] if %s == '%s' else ['r'] @}" % (X, C),
+}
+MK_PICK = {       # a value out of two, per markup kind (block arguments / data row ids)
+    "stmt": lambda X, C, a, b: "{%% if %s == '%s' %%}%s{%% else %%}%s{%% endif %%}" % (X, C, a, b),
+    "expr": lambda X, C, a, b: "{{ '%s' if %s == '%s' else '%s' }}" % (a, X, C, b),
+    "native": lambda X, C, a, b: "{@ '%s' if %s == '%s' else '%s' @}" % (a, X, C, b),
+}
+MK_COLUMNS = ["message_text", "message_text", "message_text", "choices", "condition", "include_if", "loop-list", "group"]
+
+
+def mk_value(p, x):
+    v = MK_FORMS[p["form"]][1](x, p["C"])
+    return v.replace("@X@", p["src"]) if p["form"] == "raw" else v
+
+
+def mk_rows(p, rid):
+    """rows of one markup feature (p: form, kind, src, C, col)"""
+    X, C, col = p["src"], p["C"], p["col"]
+    if col == "message_text":
+        return [tpl_row(type="send_message", message_text=MK_FORMS[p["form"]][0](X, C))]
+    if col == "choices":
+        return [tpl_row(type="send_message", message_text="Q.", choices=MK_FORMS[p["form"]][0](X, C) if MK_FORMS[p["form"]][2] != "native" else "{{%s}}" % X)]
+    if col == "group":
+        return [tpl_row(type="add_to_group", message_text=MK_FORMS[p["form"]][0](X, C))]
+    if col == "condition":
+        r = rid()
+        return [tpl_row(row_id=r, type="split_by_value", message_text="@fields.y"),
+                tpl_row(type="send_message", **{"from": r}, condition=MK_FORMS[p["form"]][0](X, C) if MK_FORMS[p["form"]][2] != "native" else "{{%s}}" % X,
+                        message_text="MC:yes."),
+                tpl_row(type="send_message", **{"from": r}, message_text="MC:no.")]
+    if col == "include_if":
+        return [tpl_row(type="send_message", include_if=MK_TRUTH[p["kind"]](X, C), message_text="MI.")]
+    if col == "loop-list":
+        return [tpl_row(type="begin_for", loop_variable="m", message_text=MK_LIST[p["kind"]](X, C)),
+                tpl_row(type="send_message", message_text="ML:{{m}}."),
+                tpl_row(type="end_for")]
+    raise ValueError(col)
+
+
+def mk_texts(p, env):
+    """message texts the feature contributes in an instance whose sources have the values env"""
+    x, C, col = env[p["src"]], p["C"], p["col"]
+    if col == "message_text":
+        return [mk_value(p, x)]
+    if col == "choices":
+        return ["Q."]
+    if col == "group":
+        return []
+    if col == "condition":
+        return ["MC:yes.", "MC:no."]
+    if col == "include_if":
+        return ["MI."] if x == C else []
+    if col == "loop-list":
+        return ["ML:p.", "ML:q."] if x == C else ["ML:r."]
+    raise ValueError(col)
+
+
+def gen_mk(rng, sources, consts):
+    """sources: reference texts usable here; consts: source -> values it takes in this workbook"""
+    src = rng.choice(sources)
+    col = rng.choice(MK_COLUMNS)
+    k = rng.random()
+    # 45% of the cells carry NO {{ }} / {@ @}: statements only; 12% are literal controls (comment, raw, plain text)
+    want = ("stmt",) if k < 0.45 else ("expr", "native") if k < 0.88 else ("static",)
+    form = rng.choice([f for f, (_, _, kind) in MK_FORMS.items() if kind in want])
+    kind = MK_FORMS[form][2]
+    if col in ("include_if", "loop-list") and kind == "static":
+        kind = "stmt"
+    return dict(form=form, kind=kind, src=src, col=col, C=rng.choice(consts[src]))
+
+
 def gen_case(rng, malformed=False):
     """An abstract workbook.  Everything random is drawn here; rendering is deterministic."""
     n_rows = rng.choice([1, 2, 2, 3, 3, 4, 5])
@@ -224,6 +334,9 @@ def gen_case(rng, malformed=False):
                          key=rng.choice(lk_ids)))
     bdata = [dict(ID="b1", bval="BV1"), dict(ID="b2", bval="BV2")]
     lookup = [dict(ID=k, col="C" + k + str(rng.randrange(10))) for k in lk_ids]
+
+    consts = {"val": sorted({d["val"] for d in data}), "flag": ["yes", "no"], "key": list(lk_ids), "ID": list(ids), "it": list(lk_ids),
+              "b1": ["A1", "A2", "yes", "B1", "no", "bd"] + sorted({d["val"] for d in data}), "bval": ["BV1", "BV2"], "d1": ["A1", "B1", "yes", "no", "bd"]}
 
     # ---- templates -------------------------------------------------------------
     def gen_defs(prefix):
@@ -255,10 +368,14 @@ def gen_case(rng, malformed=False):
     def gen_features(defs, has_data, allow_block=True):
         feats = []
         pool = ["args", "probe", "group", "router", "litloop"]
+        plain_args = [n for n, t, _ in defs if t != "sheet"]
+        sources = (["val", "flag", "key", "ID"] if has_data else []) + plain_args
+        if sources:
+            pool += ["mk"] * 5
         if has_data:
-            pool += ["field", "field", "loop", "loop", "cond", "cond", "mut", "read", "startflow"]
+            pool += ["field", "field", "loop", "loop", "cond", "cond", "mut", "read", "startflow", "mkloop", "mkloop"]
             if allow_block:
-                pool += ["block", "block", "blocknodata"]
+                pool += ["block", "block", "blocknodata", "mkblock", "mkblock", "mkblock"]
         if any(t == "sheet" for _, t, _ in defs):
             pool += ["sheet", "sheet", "readlk"]
         for _ in range(rng.choice([2, 3, 4, 5, 6])):
@@ -274,6 +391,17 @@ def gen_case(rng, malformed=False):
                 p = dict(which=rng.choice([n for n, t, _ in defs if t == "sheet"]), k=rng.choice(lk_ids), rid=rng.choice(ids))
             if f == "startflow":
                 p = dict(target=rng.randrange(1000))
+            if f == "mk":
+                p = gen_mk(rng, sources, consts)
+            if f == "mkloop":
+                p = gen_mk(rng, sources + ["it", "it"], consts)
+                p["col"] = rng.choice(["message_text", "message_text", "include_if", "choices"])
+                if p["kind"] == "static":
+                    p["kind"] = "stmt"      # the truth-valued cell of include_if has no literal form
+            if f == "mkblock":
+                # how the inserted block gets its argument and its data row: each by some kind of markup over a source
+                p = dict(arg=gen_mk(rng, sources, consts), row=gen_mk(rng, sources, consts) if rng.random() < 0.6 else None,
+                         a=rng.choice(["A1", "A2", "yes"]), b=rng.choice(["B1", "no"]), direct=rng.random() < 0.4)
             feats.append((f, p))
         # an enter-flow node has no default exit: at most one, as the last row
         sf = [x for x in feats if x[0] == "startflow"]
@@ -290,7 +418,6 @@ def gen_case(rng, malformed=False):
     for t, (name, tp) in enumerate(templates.items()):
         has_data = True if t == 0 else rng.random() < 0.7
         tp["has_data"] = has_data
-        tp["feats"] = gen_features(tp["defs"], has_data)
         n_create = 1 if t == 0 else rng.choice([1, 1, 2])
         for k in range(n_create):
             if has_data:
@@ -301,6 +428,11 @@ def gen_case(rng, malformed=False):
                                 row_id=rng.choice(ids) if mode == "single" else "",
                                 args=gen_args(tp["defs"]),
                                 new_name=rng.choice(["", f"ren{len(creates)}", f"N {len(creates)}"])))
+        # the values each plain argument takes in this workbook (given or default): constants the markup compares with
+        for j, (n, ty, d) in enumerate(tp["defs"]):
+            if ty != "sheet":
+                consts[n] = sorted({(c["args"][j] if j < len(c["args"]) and c["args"][j] != "" else d) for c in creates if c["template"] == name})
+        tp["feats"] = gen_features(tp["defs"], has_data)
     # distinct flow names per create row: blank new_name only once per template
     seen = set()
     for c in creates:
@@ -310,8 +442,14 @@ def gen_case(rng, malformed=False):
             base = c["new_name"]
         seen.add(base)
     rng.shuffle(creates)
+    blk2 = dict(feats=[gen_mk(rng, ["b1", "b1", "bval"], consts) for _ in range(rng.choice([1, 2, 3]))],
+                nested=rng.choice([None, None, "expr", "stmt", "native"]), nested_C=rng.choice(consts["b1"]),
+                blk3=[gen_mk(rng, ["d1"], consts) for _ in range(rng.choice([1, 2]))])
+    for q in blk2["feats"] + blk2["blk3"]:
+        if q["col"] == "loop-list" and rng.random() < 0.5:
+            q["col"] = "message_text"
     case = dict(ids=ids, data=data, bdata=bdata, lookup=lookup, templates=templates, creates=creates,
-                blk_defs=[("b1", "", "bd")], malformed=None,
+                blk_defs=[("b1", "", "bd")], malformed=None, blk2=blk2,
                 index_order=rng.choice(["defs-first", "creates-first"]))
     if malformed:
         case["malformed"] = rng.choice(["missing-required", "clash", "unknown-sheet", "too-many", "empty-loop",
@@ -414,9 +552,96 @@ def render_template(case, name):
             rows.append(tpl_row(type="start_new_flow", message_text=p["target_name"]))
         elif f == "badattr":
             rows.append(tpl_row(type="send_message", message_text="{{val.nosuch.deeper}}"))
+        elif f == "mk":
+            rows += mk_rows(p, rid)
+        elif f == "mkloop":
+            rows.append(tpl_row(type="begin_for", loop_variable="it", message_text="{@items@}"))
+            rows += mk_rows(p, rid)
+            rows.append(tpl_row(type="end_for"))
+        elif f == "mkblock":
+            rows.append(mkblock_row(p))
     if len(rows) == 1:
         rows.append(tpl_row(type="send_message", message_text="empty."))
     return rows
+
+
+def mkblock_row(p):
+    """insert_as_block of the generated block blk2: its argument and (optionally) its data row come out of markup cells"""
+    a = p["arg"]
+    if p["direct"]:
+        arg = MK_FORMS["native" if a["kind"] == "native" else "expr"][0](a["src"], a["C"]).replace("T{{", "{{").replace("}}.", "}}")
+    else:
+        arg = MK_PICK[a["kind"] if a["kind"] in MK_PICK else "stmt"](a["src"], a["C"], p["a"], p["b"])
+    r = p["row"]
+    if r is None:
+        return tpl_row(type="insert_as_block", message_text="blk2", template_arguments=arg)
+    did = MK_PICK[r["kind"] if r["kind"] in MK_PICK else "stmt"](r["src"], r["C"], "b1", "b2")
+    return tpl_row(type="insert_as_block", message_text="blk2", data_sheet="bdata", data_row_id=did, template_arguments=arg)
+
+
+def mkblock_texts(case, p, env):
+    a = p["arg"]
+    x = env[a["src"]]
+    b1 = x if p["direct"] else (p["a"] if x == a["C"] else p["b"])
+    benv = {"b1": b1}
+    r = p["row"]
+    if r is not None:
+        bid = "b1" if env[r["src"]] == r["C"] else "b2"
+        benv["bval"] = next(b["bval"] for b in case["bdata"] if b["ID"] == bid)
+    return blk2_texts(case, benv)
+
+
+def render_blk2(case):
+    b = case["blk2"]
+    rows = [TPL_HEAD, tpl_row(type="send_message", message_text="B2.")]
+    nid = [0]
+
+    def rid():
+        nid[0] += 1
+        return f"k{nid[0]}"
+    for q in b["feats"]:
+        rr = mk_rows(q, rid)
+        if q["src"] == "bval":
+            # only meaningful when the block has its own data row: the rows sit in a block excluded otherwise
+            rows.append(tpl_row(type="begin_block", include_if="{@ bval is defined @}"))
+            rows += rr
+            rows.append(tpl_row(type="end_block"))
+        else:
+            rows += rr
+    if b["nested"]:
+        arg = "{{b1}}" if b["nested"] == "expr" else "{@ b1 @}" if b["nested"] == "native" else \
+            MK_PICK["stmt"]("b1", b["nested_C"], "A1", "B1")
+        rows.append(tpl_row(type="insert_as_block", message_text="blk3", template_arguments=arg))
+    rows.append(tpl_row(type="send_message", message_text="E2."))
+    return rows
+
+
+def render_blk3(case):
+    rows = [TPL_HEAD, tpl_row(type="send_message", message_text="B3.")]
+    nid = [0]
+
+    def rid():
+        nid[0] += 1
+        return f"j{nid[0]}"
+    for q in case["blk2"]["blk3"]:
+        rows += mk_rows(q, rid)
+    return rows
+
+
+def blk2_texts(case, benv):
+    b = case["blk2"]
+    out = ["B2."]
+    for q in b["feats"]:
+        if q["src"] == "bval" and "bval" not in benv:
+            continue
+        out += mk_texts(q, benv)
+    if b["nested"]:
+        d1 = benv["b1"] if b["nested"] in ("expr", "native") else ("A1" if benv["b1"] == b["nested_C"] else "B1")
+        out.append("B3.")
+        for q in b["blk3"]:
+            out += mk_texts(q, {"d1": d1})
+    out.append("E2.")
+    return out
 
 
 def render_blk():
@@ -474,6 +699,8 @@ def base_sheets(case):
         "bdata": table(case["bdata"], ["ID", "bval"]),
         "lookup": table(case["lookup"], ["ID", "col"]),
         "blk": render_blk(),
+        "blk2": render_blk2(case),
+        "blk3": render_blk3(case),
     }
     for name in case["templates"]:
         sheets[name] = render_template(case, name)
@@ -483,6 +710,8 @@ def base_sheets(case):
 def index_rows(case, create_rows):
     defs = [["template_definition", n, "", "", defs_cell(t["defs"]), "", ""] for n, t in case["templates"].items()]
     defs.append(["template_definition", "blk", "", "", defs_cell(case["blk_defs"]), "", ""])
+    defs.append(["template_definition", "blk2", "", "", defs_cell([("b1", "", "bd")]), "", ""])
+    defs.append(["template_definition", "blk3", "", "", defs_cell([("d1", "", "bd")]), "", ""])
     ds = [["data_sheet", n, "", "", "", "", ""] for n in ("data", "bdata", "lookup")]
     if case["index_order"] == "defs-first":
         return [INDEX_HEAD] + defs + ds + create_rows
@@ -558,6 +787,17 @@ def expected_texts(case, create, rid):
             out.append("R:" + "+".join(row["items"]) + ".")
         elif f == "router":
             out += ["RT:yes.", "RT:no."]
+        elif f in ("mk", "mkloop", "mkblock"):
+            menv = {n: env[n] for n, t, _ in defs if t != "sheet"}
+            if row is not None:
+                menv.update(val=row["val"], flag=row["flag"], key=row["key"], ID=row["ID"])
+            if f == "mk":
+                out += mk_texts(p, menv)
+            elif f == "mkblock":
+                out += mkblock_texts(case, p, menv)
+            else:
+                for it in row["items"]:
+                    out += mk_texts(p, dict(menv, it=it))
     return out
 
 
@@ -569,17 +809,26 @@ class _RecFlow:
         self.name, self.seq, self.uuid = name, seq, "u-" + name
 
 
-def make_recorder(log, fail):
+def make_recorder(log, fail, hidden=None):
     class RecordingFlowParser:
-        """stands in for FlowParser inside contentindexparser: records what it is built with"""
+        """stands in for FlowParser inside contentindexparser: records what it is built with.  Anything it is handed beyond
+        the arguments the model knows (container, name, table, context, the parser itself) is a channel between instances
+        that the theorems' compiler does not have: recorded in `hidden`."""
 
         def __init__(self, rapidpro_container, flow_name, table=None, flow_uuid=None, context=None,
-                     sheet_parser=None, content_index_parser=None):
+                     sheet_parser=None, content_index_parser=None, *more, **extra):
             self.c, self.name, self.table, self.context = rapidpro_container, flow_name, table, context
+            if hidden is not None:
+                for k, val in list(extra.items()) + [(f"positional {i}", x) for i, x in enumerate(more)]:
+                    hidden.setdefault(k, []).append(val)
+                if flow_uuid is not None:
+                    hidden.setdefault("flow_uuid", []).append(flow_uuid)
+                if sheet_parser is not None:
+                    hidden.setdefault("sheet_parser", []).append(sheet_parser)
 
         def _go(self):
             seq = getattr(self.c, "_c12_seq", 0)
-            log.append((self.name, self.table, py_ctx(self.context), seq, id(self.c)))
+            log.append((self.name, self.table, py_ctx(self.context), seq, id(self.c), self.context))
             if self.name in fail:
                 raise ValueError("recorder: compile fails")
             self.c._c12_seq = seq + 1
@@ -800,8 +1049,42 @@ def gen_bulk_case(rng, malformed):
     return dict(data=data, lookup=lookup, tdefs=tdefs, rows=rows, fail=fail, kind=kind)
 
 
+def gen_calls(rng, c):
+    """the calls of a history on the parser of bulk case c: the index as given, then the same rows in another order, a
+    sub-list with a row repeated, and get_node_group calls (valid, unknown row, half-given) in between"""
+    rows = c["rows"]
+    ids = [i for i, _ in c["data"]]
+    calls = [("all", rows)]
+    for _ in range(rng.choice([2, 3, 4])):
+        k = rng.random()
+        if k < 0.35:
+            perm = list(rows)
+            rng.shuffle(perm)
+            calls.append(("all", perm))
+        elif k < 0.6:
+            sub = [rng.choice(rows) for _ in range(rng.choice([1, 2, 3]))]
+            calls.append(("all", sub))
+        else:
+            t = rng.choice(list(c["tdefs"]))
+            args = {"t1": rng.choice([["A"], ["A", "B"], []]), "t2": rng.choice([[""], ["lookup"], ["nosuch"]]), "t3": [[""], []][rng.randrange(2)]}[t]
+            mode = rng.choice(["row", "row", "none", "half", "unknown"])
+            ds, rid = {"row": ("data", rng.choice(ids) if ids else "zz"), "none": ("", ""), "half": rng.choice([("data", ""), ("", "r1")]),
+                       "unknown": ("data", "nosuch")}[mode]
+            calls.append(("block", t, ds, rid, args))
+    if rng.random() < 0.5:
+        calls.append(calls[rng.randrange(len(calls))])     # a call repeated verbatim
+    return calls
+
+
+def enc_cfrows(rows):
+    return "(" + " ".join(f"({enc_str(r[0])} {enc_str(r[1])} {enc_str(r[2])} {enc_str(r[3])} {enc_args(r[4])})" for r in rows) + ")"
+
+
 def run_bulk_correspondence(ctx, n):
+    """Model (BulkHistory.run_calls, extracted) against ONE real ContentIndexParser per case: a history of parse_all_flows
+    passes and get_node_group calls on the same object, FlowParser replaced by a recorder; every call compared."""
     import rpft.parsers.creation.contentindexparser as cip
+    from rpft.parsers.creation.contentindexrowmodel import ContentIndexRowModel
     from rpft.rapidpro.models.containers import RapidProContainer
 
     rng, m = ctx.rng, ctx.model
@@ -809,20 +1092,24 @@ def run_bulk_correspondence(ctx, n):
     tnum = {"t1": 1, "t2": 2, "t3": 3}
     reqs = []
     for c in cases:
+        c["calls"] = gen_calls(rng, c)
         ts = "(" + " ".join(f"({enc_str(t)} {tnum[t]} {enc_defs(d)})" for t, d in c["tdefs"].items()) + ")"
         ss = enc_sheets([("data", c["data"]), ("lookup", c["lookup"])])
-        rows = "(" + " ".join(f"({enc_str(r[0])} {enc_str(r[1])} {enc_str(r[2])} {enc_str(r[3])} {enc_args(r[4])})" for r in c["rows"]) + ")"
+        calls = "(" + " ".join(f"(0 {enc_cfrows(cl[1])})" if cl[0] == "all" else
+                               f"(1 {enc_str(cl[1])} {enc_str(cl[2])} {enc_str(cl[3])} {enc_args(cl[4])})" for cl in c["calls"]) + ")"
         fail = "(" + " ".join(enc_str(f) for f in c["fail"]) + ")"
-        reqs += [f"(112 2 {ts} {ss} {rows} {fail})", f"(112 3 {ts} {ss} {rows})"]
+        reqs.append(f"(112 5 {ts} {ss} {calls} {fail})")
     outs = m.ask_many(reqs) if m else None
     dist = {}
+    hdist = {"calls": {}, "histories": 0, "calls_total": 0, "verbatim_repeats": 0}
     nontrivial = set()
+    hidden = {}
+    shared_ctx = 0
     orig = cip.FlowParser
     try:
         for i, c in enumerate(cases):
-            ctx.v.coverage["evaluations"] += 1
             log = []
-            cip.FlowParser = make_recorder(log, set(c["fail"]))
+            cip.FlowParser = make_recorder(log, set(c["fail"]), hidden)
             # the real parser object, its registries filled by the real index processing
             sheets = {
                 "data": [["ID", "val", "items:List[str]"]] + [[i_, dict(r)["val"], ";".join(dict(r)["items"]) + (";" if len(dict(r)["items"]) == 1 else "")] for i_, r in c["data"]],
@@ -834,47 +1121,88 @@ def run_bulk_correspondence(ctx, n):
             if r0[0] != "ok":
                 ctx.disagree("building the parser for the Bulk correspondence", repr(c), "-", repr(r0))
                 continue
-            parser = r0[1]
-            from rpft.parsers.creation.contentindexrowmodel import ContentIndexRowModel
-            parser.flow_definition_rows = [
-                (f"row {k}", ContentIndexRowModel(type="create_flow", sheet_name=[r[0]], new_name=r[1], data_sheet=r[2],
-                                                  data_row_id=r[3], template_arguments=copy.deepcopy(r[4])))
-                for k, r in enumerate(c["rows"])]
-            cont = RapidProContainer()
-            r = run_cli_mode(parser.parse_all_flows, cont)
-            key = c["kind"] + "/" + ("ok" if r[0] == "ok" else r[1])
-            dist[key] = dist.get(key, 0) + 1
+            parser = r0[1]          # ONE object for the whole history
             tables = {id(parser.template_sheets[t].table): tnum[t] for t in tnum if t in parser.template_sheets}
-            trace = [(nm, tables.get(id(tb), 0), cx) for (nm, tb, cx, seq, cid) in log]
-            if len(trace) >= 2:
-                nontrivial.add(repr((c["rows"], [i_ for i_, _ in c["data"]])))
-            if r[0] == "ok":
-                impl = ("ok", [(f.name, f.seq) for f in cont.flows], getattr(cont, "_c12_seq", 0))
-            else:
-                impl = ("err",)
-            if outs is not None:
-                mo = parse_sexp(outs[2 * i])
-                if is_err(mo):
-                    mod = ("err",)
+            mouts = parse_sexp(outs[i]) if outs is not None else None
+            hdist["histories"] += 1
+            hdist["verbatim_repeats"] += len(c["calls"]) - len({repr(x) for x in c["calls"]})
+            for j, cl in enumerate(c["calls"]):
+                ctx.v.coverage["evaluations"] += 1
+                hdist["calls_total"] += 1
+                del log[:]
+                if cl[0] == "all":
+                    parser.flow_definition_rows = [
+                        (f"row {k}", ContentIndexRowModel(type="create_flow", sheet_name=[r[0]], new_name=r[1], data_sheet=r[2],
+                                                          data_row_id=r[3], template_arguments=copy.deepcopy(r[4])))
+                        for k, r in enumerate(cl[1])]
+                    cont = RapidProContainer()
+                    r = run_cli_mode(parser.parse_all_flows, cont)
+                    impl = ("ok", [(f.name, f.seq) for f in cont.flows], getattr(cont, "_c12_seq", 0)) if r[0] == "ok" else ("err",)
                 else:
-                    mod = ("ok", [(dec_str(f[0]), f[3]) for f in mo[1]], mo[2])
-                if mod != impl:
-                    ctx.disagree("parse_all_flows (flows, order, threading)", repr((c["rows"], c["data"], c["fail"])), repr(mod), repr(impl))
-                # the plan: every FlowParser construction, in order, up to the first stop
-                plan = parse_sexp(outs[2 * i + 1])
-                mtrace = []
-                for it in plan:
-                    if is_err(it):
-                        break
-                    nm, tb, cx = it[1]
-                    mtrace.append((dec_str(nm), tb, dec_ctx(cx)))
-                    if dec_str(nm) in c["fail"]:
-                        break
-                if mtrace != trace:
-                    ctx.disagree("instances handed to FlowParser (name, table, context)", repr((c["rows"], c["data"])), repr(mtrace), repr(trace))
+                    r = run_cli_mode(parser.get_node_group, cl[1], cl[2], cl[3], copy.deepcopy(cl[4]))
+                    impl = ("ok", None, r[1].seq) if r[0] == "ok" else ("err",)     # a block is compiled in a container of its own
+                hk = cl[0] + "/" + ("ok" if r[0] == "ok" else r[1])
+                hdist["calls"][hk] = hdist["calls"].get(hk, 0) + 1
+                if j == 0:
+                    key = c["kind"] + "/" + ("ok" if r[0] == "ok" else r[1])
+                    dist[key] = dist.get(key, 0) + 1
+                trace = [(nm, tables.get(id(tb), 0), cx) for (nm, tb, cx, seq, cid, cobj) in log]
+                if len({id(x[5]) for x in log}) != len(log):
+                    shared_ctx += 1
+                if len(trace) >= 2:
+                    nontrivial.add(repr((cl, [i_ for i_, _ in c["data"]])))
+                if mouts is None:
+                    continue
+                mo = mouts[j]
+                what = f"call {j} of the history {c['calls']!r} on one ContentIndexParser"
+                if cl[0] == "all":
+                    res, plan = mo
+                    mod = ("err",) if is_err(res) else ("ok", [(dec_str(f[0]), f[3]) for f in res[1]], res[2])
+                    if mod != impl:
+                        ctx.disagree("parse_all_flows (flows, order, threading): " + what, repr((cl[1], c["data"], c["fail"])), repr(mod), repr(impl))
+                    # the plan: every FlowParser construction, in order, up to the first stop
+                    mtrace = []
+                    for it in plan:
+                        if is_err(it):
+                            break
+                        nm, tb, cx = it[1]
+                        mtrace.append((dec_str(nm), tb, dec_ctx(cx)))
+                        if dec_str(nm) in c["fail"]:
+                            break
+                    if mtrace != trace:
+                        ctx.disagree("instances handed to FlowParser (name, table, context): " + what, repr((cl[1], c["data"])), repr(mtrace), repr(trace))
+                else:
+                    if is_err(mo):
+                        mod, mtrace = ("err",), None
+                    else:
+                        mod, mtrace = ("ok", None, mo[3]), [(tb_, dec_ctx(cx_)) for tb_, cx_ in [(mo[1], mo[2])]]
+                    if mod != impl:
+                        ctx.disagree("get_node_group: " + what, repr(cl), repr(mod), repr(impl))
+                    elif mtrace is not None and [(t_, c_) for (_, t_, c_) in trace] != mtrace:
+                        ctx.disagree("get_node_group hands FlowParser (table, context): " + what, repr(cl), repr(mtrace), repr(trace))
     finally:
         cip.FlowParser = orig
+    if hidden:
+        # an argument beyond (container, name, table, context, the parser) is a channel between instances only when the SAME
+        # mutable object reaches two constructions; fresh or immutable extras are recorded, not judged
+        immut = (str, int, float, bool, type(None), tuple, frozenset, bytes)
+        shared = {}
+        for k, vals in hidden.items():
+            seen = {}
+            for x in vals:
+                if not isinstance(x, immut):
+                    seen[id(x)] = seen.get(id(x), 0) + 1
+            if any(n_ >= 2 for n_ in seen.values()):
+                shared[k] = type(vals[0]).__name__
+        ctx.stats["flowparser_extra_arguments"] = {k: len(v) for k, v in hidden.items()}
+        if shared:
+            ctx.disagree("FlowParser instances are constructed with a shared mutable object the model's compiler does not have (a channel "
+                         "between instances other than the container state)", sorted(shared), "container, name, table, context, content_index_parser",
+                         shared)
+    if shared_ctx:
+        ctx.disagree("two FlowParsers of one call are handed the SAME context object", shared_ctx, "a fresh dict per instance", "shared")
     ctx.stats["bulk_model_cases"] = dist
+    ctx.stats["bulk_model_histories"] = hdist
     return nontrivial
 
 
@@ -894,8 +1222,9 @@ def _build_parser(sheets, idx_rows):
 # =====================================================================================
 # (b) the differential oracle on the real implementation
 # =====================================================================================
-def check_case(ctx, case, alone_budget=3, record=None):
-    """runs A, B, P and some instances alone; returns the number of failing inputs reported"""
+def check_case(ctx, case, alone_budget=3, record=None, history=True):
+    """runs A, B, P, some instances alone and a history of calls on one long-lived parser; returns the number of failing
+    inputs reported"""
     v = ctx.v
     rng_perm = case["perm_seed"]
     import random as _r
@@ -985,7 +1314,97 @@ def check_case(ctx, case, alone_budget=3, record=None):
             if have != want:
                 fail("instance-text", f"flow {names[k]!r}: texts {have!r}, expected {want!r}")
                 return nfail
+        if history:
+            h = run_history(case, insts, names, alone, B[1], rng_perm, record)
+            if h:
+                fail(h[0], h[1])
     return nfail
+
+
+def history_ops(n_insts, sample, seed):
+    """calls on ONE ContentIndexParser: the sampled instances in a drawn order, one of them again after the others
+    (same template, same data row), a whole parse_all_flows pass somewhere in between, the first one once more at the end"""
+    import random as _r
+    rr = _r.Random(seed ^ 0x5A5A)
+    order = list(sample)
+    rr.shuffle(order)
+    ops = [("flow", k) for k in order]
+    if order:
+        ops.insert(rr.randrange(len(ops) + 1), ("flow", rr.choice(order)))
+    if rr.random() < 0.5:
+        ops.insert(rr.randrange(len(ops) + 1), ("all",))
+    if order and rr.random() < 0.6:
+        ops.append(("flow", order[0]))
+    return ops
+
+
+def run_history(case, insts, names, alone, whole, seed, record=None):
+    """The instances of index B generated by _parse_flow calls on ONE long-lived ContentIndexParser, in another order
+    and repeatedly; each call must give the flow the instance gives when compiled ALONE by a fresh parser (full JSON up
+    to invented uuids), a parse_all_flows pass in between what index B gives.  -> None | (key, summary)"""
+    from rpft.rapidpro.models.containers import RapidProContainer
+
+    sheets = book(case, rows_B(case))
+    r0 = run_cli_mode(_build_from_sheets, sheets)
+    if r0[0] != "ok":
+        return ("history-status", f"index B compiles through create_flows but its parser cannot be built: {r0[1:]}")
+    parser = r0[1]
+    rows = [row for _, row in parser.flow_definition_rows]
+    if len(rows) != len(insts):
+        return None     # duplicate names / malformed: instances and index rows do not pair up
+    ops = history_ops(len(insts), sorted(alone), seed)
+    if record is not None:
+        record["history_ops"] = [o[0] for o in ops]
+        record["history_repeats"] = len(ops) - len(set(ops))
+    snap = registry_snapshot(parser)
+    for j, op in enumerate(ops):
+        if op[0] == "flow":
+            k = op[1]
+            row = rows[k]
+            def one(row=row):
+                # what parse_all_flows does for one index row, in a container of its own
+                cont = RapidProContainer()
+                cont.add_flow(parser._parse_flow(row.sheet_name[0], row.data_sheet, row.data_row_id, row.template_arguments, cont, row.new_name))
+                return cont.render()["flows"][0]
+            r = run_cli_mode(one)
+            if r[0] != "ok":
+                return ("history-status", f"call {j} of {ops}: instance {names[k]!r} compiles alone but stops on the long-lived parser: {r[1:]}")
+            d = same_upto(r[1], alone[k][1]["flows"][0], Bij())
+            if d:
+                return ("history-instance", f"call {j} of {ops} on one ContentIndexParser: flow {names[k]!r} differs from the same instance "
+                                            f"compiled alone by a fresh parser: {d}")
+        else:
+            def go():
+                cont = RapidProContainer()
+                parser.parse_all_flows(cont)
+                return cont.render()
+            r = run_cli_mode(go)
+            if r[0] != "ok":
+                return ("history-status", f"call {j} of {ops}: parse_all_flows stops on the long-lived parser: {r[1:]}")
+            d = same_upto(r[1]["flows"], whole["flows"], Bij())
+            if d:
+                return ("history-instance", f"call {j} of {ops} on one ContentIndexParser: parse_all_flows differs from index B compiled afresh: {d}")
+    if record is not None:
+        record["registry_changed"] = registry_snapshot(parser) != snap
+    return None
+
+
+def registry_snapshot(parser):
+    """what survives on the parser object from one call to the next: template sheets (rows + every other attribute) and data sheets"""
+    t = {n: ([tuple(r) for r in ts.table], {k: repr(x) for k, x in vars(ts).items() if k != "table"}) for n, ts in parser.template_sheets.items()}
+    d = {n: repr(ds.rows) for n, ds in parser.data_sheets.items()}
+    return t, d
+
+
+def _build_from_sheets(sheets):
+    from rpft.converters import get_content_index_parser
+
+    d = tempfile.mkdtemp(prefix="c12hist")
+    try:
+        write_book(d, sheets)
+        return get_content_index_parser([d], "csv", None, [])
+    finally:
+        shutil.rmtree(d, ignore_errors=True)
 
 
 def run(ctx):
@@ -1002,8 +1421,11 @@ def run(ctx):
     nontrivial |= run_bulk_correspondence(ctx, n_bulk)
 
     # ---------------- (b) differential
-    n_cases = (3000 if thorough else 110) * ctx.scale
-    dist = {"valid": 0, "malformed": {}, "A_ok": 0, "A_err": 0, "instances": 0, "features": {}, "data_rows": {}}
+    # a case costs ~0.85 s since wave 3 (markup features, nested blocks, the history on one parser): 1800 keeps the thorough tier under 30 min
+    n_cases = (1800 if thorough else 110) * ctx.scale
+    dist = {"valid": 0, "malformed": {}, "A_ok": 0, "A_err": 0, "instances": 0, "features": {}, "data_rows": {},
+            "markup_kind": {}, "markup_column": {}, "markup_form": {},
+            "histories_on_one_parser": {"run": 0, "calls": {}, "lengths": {}, "with_a_repeated_call": 0, "registry_changed_by_calls": 0}}
     samples = []
     for k in range(n_cases):
         malformed = (k % 7 == 6)
@@ -1019,9 +1441,25 @@ def run(ctx):
         dist["A_ok" if rec.get("A") == "ok" else "A_err"] += 1
         dist["instances"] += rec.get("instances", 0)
         dist["data_rows"][len(case["ids"])] = dist["data_rows"].get(len(case["ids"]), 0) + 1
+        mks = list(case["blk2"]["feats"]) + list(case["blk2"]["blk3"])
         for tp in case["templates"].values():
-            for f, _ in tp["feats"]:
+            for f, p_ in tp["feats"]:
                 dist["features"][f] = dist["features"].get(f, 0) + 1
+                if f in ("mk", "mkloop"):
+                    mks.append(p_)
+                elif f == "mkblock":
+                    mks += [p_["arg"]] + ([p_["row"]] if p_["row"] else [])
+        for q in mks:
+            for kk, vv in (("markup_kind", q["kind"]), ("markup_column", q["col"]), ("markup_form", q["form"])):
+                dist[kk][vv] = dist[kk].get(vv, 0) + 1
+        if "history_ops" in rec:
+            h = dist["histories_on_one_parser"]
+            h["run"] += 1
+            h["lengths"][len(rec["history_ops"])] = h["lengths"].get(len(rec["history_ops"]), 0) + 1
+            for o in rec["history_ops"]:
+                h["calls"][o] = h["calls"].get(o, 0) + 1
+            h["with_a_repeated_call"] += 1 if rec.get("history_repeats") else 0
+            h["registry_changed_by_calls"] += 1 if rec.get("registry_changed") else 0
         if rec.get("A") == "ok" and rec.get("instances", 0) >= 2:
             nontrivial.add(json.dumps(case, sort_keys=True, default=str))
         if k < 2:
@@ -1037,12 +1475,21 @@ def run(ctx):
         "parse_all_flows with FlowParser replaced by a recorder; (b) generated workbooks (templates with loops over a data field, "
         "literal loops, include_if, inserted blocks with own data row and arguments, sheet arguments, a template expression that "
         "mutates a data-row list, groups, routers, start_new_flow; 1..5 data rows; 6/7 valid, 1/7 malformed) compiled by "
-        "create_flows as bulk index, row-by-row index, permuted index and single instances alone. non-trivial = distinct "
+        "create_flows as bulk index, row-by-row index, permuted index and single instances alone; since wave 3 every template also "
+        "draws markup features: a cell of one of 24 forms (45% statements only - if / elif / set / for / in, whitespace control -, 43% "
+        "expressions, filters, ternaries, natives, 12% comment / raw / literal controls) over a value that differs between instances "
+        "(data field, argument, loop variable) in message_text, choices, condition, include_if, the list of a begin_for, a group name, "
+        "the argument and the data row id of an inserted block (generated blocks blk2 -> blk3 with markup of their own), top level and "
+        "inside loops; and every compiled case ends with a history on ONE ContentIndexParser: the sampled instances through "
+        "_parse_flow in a drawn order, one of them repeated, a parse_all_flows pass in between, each compared with the instance "
+        "compiled alone by a fresh parser; (a) the Bulk correspondence runs histories of parse_all_flows / get_node_group calls "
+        "(permuted rows, sub-lists with repeats, failing calls) through the extracted run_calls and one real parser. non-trivial = distinct "
         "argument case with at least one declaration, distinct Bulk-model case with >= 2 instances, distinct workbook whose bulk "
         "index compiles and has >= 2 instances")
     v.coverage["samples"] = samples
     v.assumptions += [
-        "the compilation of one flow (FlowParser) is a section variable of the theorems: its only channel between instances is the container state",
+        "the compilation of one flow (FlowParser) is a section variable of the theorems: its only channel between instances is the container state "
+        "(the recorder of the correspondence reports any further argument FlowParser is constructed with, and a context object shared by two instances)",
         "flow.name of the compiled flow is the flow_name FlowParser was given (checked on the real output: names compared)",
         "invented identifiers are strings of UUID shape; two outputs are equal when a bijection on them makes the JSON trees equal",
         "data-row IDs are non-blank (hypothesis of C12_bulk_is_map; the blank-ID case is C12_blank_id_is_not_an_instance_refuted)",
